@@ -1,6 +1,7 @@
 package main
 
 import (
+	esmtypes "github.com/comdex-official/comdex/x/esm/types"
 	"encoding/json"
 	"fmt"
 	"os"
@@ -49,6 +50,8 @@ func buildWorld(cfg Config) *World {
 	sc.Setup(w)
 	// commit everything the set-up wrote directly into the deliver state, so that a crash/restart replica and an
 	// export see it as durable state
+	// configured admin of the emergency controls: the last actor
+	w.App.EsmKeeper.SetParams(w.WCtx(), esmtypes.NewParams([]string{w.Actors[len(w.Actors)-1].Bech()}))
 	if w.Panicked == "" {
 		w.EndBlockAndBegin(5 * time.Second)
 	}
